@@ -118,7 +118,7 @@ Lemma disposition_resolves : forall d, mem d disp_names = true -> disp_of_value 
 Proof. intros d Hd. apply mem_In in Hd. exact (proj1 (Forall_forall _ _) disposition_values_resolve d Hd). Qed.
 
 Section Chain.
-Variable parse : str -> pv -> result pv.
+Variable parse : str -> params -> pv -> result pv.
 
 Definition untyped (c : column) : bool :=
   match c_type c with PA (ATy m) => str_eqb m missing_member | _ => false end.
@@ -138,8 +138,8 @@ Definition chain (c1 : column) : result column :=
   bind (norm_disposition c1) (fun c1 =>
   bind (norm_element c1) (fun c2 =>
   bind (norm_type c2) (fun c3 =>
-  bind (norm_default parse c3) (fun c4 =>
-  norm_decimal c4)))).
+  bind (norm_decimal c3) (fun c4 =>
+  norm_default parse c4)))).
 
 Definition text_form (v : pv) : pv :=
   match v with
@@ -158,17 +158,22 @@ Definition kw_view (c : column) (D X : pv) (f : field) : pv :=
   | _ => get f c
   end.
 
+(* what the default keyword D must be for the constructor to end with c's default: an untyped column keeps it
+   untouched; a typed column keeps None and casts anything else with the column's own parameters *)
+Definition default_ok (c : column) (D : pv) : Prop :=
+  if untyped c then D = c_default c
+  else (is_none D = true -> D = c_default c) /\
+       (is_none D = false -> forall m, c_type c = PA (ATy m) -> parse m (col_params c) D = Ok (c_default c)).
+
 Lemma chain_text : forall c D,
   wf_col c ->
-  (if untyped c then truthy D = false /\ D = c_default c
-   else (truthy D = true -> forall m, c_type c = PA (ATy m) -> parse m D = Ok (c_default c)) /\
-        (truthy D = false -> D = c_default c)) ->
+  default_ok c D ->
   chain (build (kw_view c D (c_expectations c))) = Ok (restored c).
 Proof.
   intros c D [[m [Ht Hm]] He Ha Hd Hdec] HD.
   destruct c as [n d t e ds dp al nu ex id ln pr sc og hi lo nc].
   cbn [c_type c_elt c_disposition c_default c_precision c_scale c_expectations] in *. subst t.
-  unfold chain, restored, untyped in *. cbn [c_type c_expectations] in *.
+  unfold chain, restored, default_ok, untyped, col_params in *. cbn [c_type c_expectations c_default c_length c_precision c_scale c_elt] in *.
   (* disposition *)
   change (build (kw_view (mkcolumn n d (PA (ATy m)) e ds dp al nu ex id ln pr sc og hi lo nc) D ex))
     with (mkcolumn n D (PA (AText (type_value m))) (text_form e) ds (text_form dp) al nu ex id ln pr sc og hi lo nc).
@@ -188,13 +193,13 @@ Proof.
   rewrite S2. cbn [bind]. clear S2.
   (* type *)
   destruct (str_eqb m missing_member) eqn:Em.
-  - apply str_eqb_eq in Em. subst m. destruct HD as [HD1 HD2]. subst D.
+  - apply str_eqb_eq in Em. subst m. subst D.
     unfold norm_type. cbn [c_type]. rewrite (proj1 missing_name_resolves). cbn [bind].
     unfold Model.C06.plain. cbn [Model.C06.d_ty pv_of_tyref].
     change (set FType (PA (AInt 0)) (mkcolumn n d (PA (AText (type_value missing_member))) e ds dp al nu ex id ln pr sc og hi lo nc))
       with (mkcolumn n d (PA (AInt 0)) e ds dp al nu ex id ln pr sc og hi lo nc).
-    cbn [bind]. unfold norm_default. cbn [c_default c_type]. rewrite HD1. cbn [bind].
-    reflexivity.
+    cbn [bind]. unfold norm_decimal at 1. cbn [c_type bind]. unfold norm_default. cbn [c_default c_type].
+    destruct (is_none d); reflexivity.
   - assert (Hn : m <> missing_member) by (intros ->; rewrite str_eqb_refl in Em; discriminate).
     assert (S3 : norm_type (mkcolumn n D (PA (AText (type_value m))) e ds dp al nu ex id ln pr sc og hi lo nc)
                  = Ok (mkcolumn n D (PA (ATy m)) e ds dp al nu ex id ln pr sc og hi lo nc)).
@@ -206,27 +211,23 @@ Proof.
         cbn. destruct e as [[]|]; try reflexivity. exfalso. apply (Ha eq_refl). reflexivity.
       + cbn [pv_of_optT]. rewrite fill_none. reflexivity. }
     rewrite S3. cbn [bind]. clear S3.
-    destruct HD as [HD1 HD2].
-    assert (S4 : norm_default parse (mkcolumn n D (PA (ATy m)) e ds dp al nu ex id ln pr sc og hi lo nc)
-                 = Ok (mkcolumn n d (PA (ATy m)) e ds dp al nu ex id ln pr sc og hi lo nc)).
-    { unfold norm_default. cbn [c_default c_type]. destruct (truthy D) eqn:ET.
-      - rewrite (HD1 eq_refl m eq_refl). reflexivity.
-      - rewrite (HD2 eq_refl). reflexivity. }
+    assert (S4 : norm_decimal (mkcolumn n D (PA (ATy m)) e ds dp al nu ex id ln pr sc og hi lo nc)
+                 = Ok (mkcolumn n D (PA (ATy m)) e ds dp al nu ex id ln pr sc og hi lo nc)).
+    { unfold norm_decimal. cbn [c_type]. destruct (str_eqb m ty_decimal) eqn:Edc; [|reflexivity].
+      apply str_eqb_eq in Edc. subst m. destruct (Hdec eq_refl) as [Hp Hs].
+      rewrite fill_present by exact Hp. cbn [c_scale]. rewrite Hs. reflexivity. }
     rewrite S4. cbn [bind]. clear S4.
-    unfold norm_decimal. cbn [c_type]. destruct (str_eqb m ty_decimal) eqn:Edc; [|reflexivity].
-    apply str_eqb_eq in Edc. subst m. destruct (Hdec eq_refl) as [Hp Hs].
-    rewrite fill_present by exact Hp. cbn [c_scale]. rewrite Hs. reflexivity.
+    destruct HD as [HD1 HD2].
+    unfold norm_default, col_params. cbn [c_default c_type c_length c_precision c_scale c_elt]. rewrite Em.
+    destruct (is_none D) eqn:ET.
+    + rewrite (HD1 eq_refl). reflexivity.
+    + rewrite (HD2 eq_refl m eq_refl). reflexivity.
 Qed.
 
 (* ---------- FlatColumn(keywords) when the keywords are a column's attributes with type / element type /
    disposition in text form ---------- *)
 Definition free (f : field) : bool :=
   negb (field_eqb f FType || field_eqb f FElementType || field_eqb f FDisposition).
-
-Definition default_ok (c : column) (D : pv) : Prop :=
-  if untyped c then truthy D = false /\ D = c_default c
-  else (truthy D = true -> forall m, c_type c = PA (ATy m) -> parse m D = Ok (c_default c)) /\
-       (truthy D = false -> D = c_default c).
 
 Lemma init_text : forall cls fresh kw c D X,
   wf_col c -> default_ok c D -> exp_in X = Ok (c_expectations c) ->
@@ -283,7 +284,8 @@ Lemma from_dict_to_dict : forall fresh s,
   Forall (fun c => wf_col c /\ plain_free c /\ default_ok c (c_default c) /\
                    exp_in (c_expectations c) = Ok (c_expectations c)) (s_columns s) ->
   from_dict parse fresh (to_dict s) =
-  Ok (mkschema (conv (s_name s)) (conv (s_aliases s)) (map restored (s_columns s)) (conv (s_pk s)) PNone PNone PNone PNone).
+  Ok (mkschema (conv (s_name s)) (conv (s_aliases s)) (map restored (s_columns s)) (conv (s_pk s))
+               (conv (s_rcm s)) (conv (s_rce s)) (conv (s_dsm s)) (conv (s_dse s))).
 Proof.
   intros fresh s H. unfold from_dict, to_dict. cbn [d_name d_aliases d_columns d_pk].
   rewrite (restore_cols_to_dict fresh (s_columns s) 0 H). reflexivity.
@@ -332,7 +334,7 @@ End Chain.
 
 (* ==================== JSON ==================== *)
 Section Json.
-Variable parse : str -> pv -> result pv.
+Variable parse : str -> params -> pv -> result pv.
 Variable ser_ext : atom -> result jval.
 
 Lemma field_of_name_name : forall f, field_of_name (field_name f) = Some f.
@@ -453,14 +455,21 @@ Definition normalised (c : column) : Prop :=
   ((exists m, c_type c = PA (ATy m)) \/ c_type c = PA (AInt 0)) /\
   (c_elt c = PNone \/ exists e, c_elt c = PA (ATy e)) /\
   (c_type c = PA (ATy ty_decimal) -> is_none (c_precision c) = false /\ is_none (c_scale c) = false) /\
-  (truthy (c_default c) = true -> exists m, c_type c = PA (ATy m) /\ parse m (c_default c) = Ok (c_default c)).
+  (is_none (c_default c) = false -> forall m, c_type c = PA (ATy m) -> m <> missing_member ->
+   parse m (PNone, c_precision c, c_scale c, c_elt c) (c_default c) = Ok (c_default c)).
 
 Lemma chain_normalised : forall c,
-  normalised c -> c_disposition c = PNone -> chain parse c = Ok c.
+  ((exists m, c_type c = PA (ATy m)) \/ c_type c = PA (AInt 0)) ->
+  (c_elt c = PNone \/ exists e, c_elt c = PA (ATy e)) ->
+  (c_type c = PA (ATy ty_decimal) -> is_none (c_precision c) = false /\ is_none (c_scale c) = false) ->
+  (is_none (c_default c) = false -> forall m, c_type c = PA (ATy m) -> m <> missing_member ->
+   parse m (col_params c) (c_default c) = Ok (c_default c)) ->
+  c_disposition c = PNone -> chain parse c = Ok c.
 Proof.
-  intros c [Ht [He [Hdec Hdf]]] Hdp.
+  intros c Ht He Hdec Hdf Hdp.
   destruct c as [n d t e ds dp al nu ex id ln pr sc og hi lo nc].
-  cbn [c_type c_elt c_disposition c_default c_precision c_scale] in *. subst dp.
+  unfold col_params in *.
+  cbn [c_type c_elt c_disposition c_default c_precision c_scale c_length] in *. subst dp.
   unfold chain.
   assert (S1 : norm_disposition (mkcolumn n d t e ds PNone al nu ex id ln pr sc og hi lo nc)
                = Ok (mkcolumn n d t e ds PNone al nu ex id ln pr sc og hi lo nc)) by reflexivity.
@@ -474,15 +483,19 @@ Proof.
   { destruct Ht as [[m ->] | ->]; [reflexivity|].
     unfold norm_type. cbn [c_type]. rewrite (proj2 missing_name_resolves). reflexivity. }
   rewrite S3. cbn [bind]. clear S3.
-  assert (S4 : norm_default parse (mkcolumn n d t e ds PNone al nu ex id ln pr sc og hi lo nc)
+  assert (S4 : norm_decimal (mkcolumn n d t e ds PNone al nu ex id ln pr sc og hi lo nc)
                = Ok (mkcolumn n d t e ds PNone al nu ex id ln pr sc og hi lo nc)).
-  { unfold norm_default. cbn [c_default c_type]. destruct (truthy d) eqn:ET; [|reflexivity].
-    destruct (Hdf eq_refl) as [m [-> Hp]]. rewrite Hp. reflexivity. }
+  { unfold norm_decimal. cbn [c_type]. destruct t as [[]|]; try reflexivity.
+    destruct (str_eqb m ty_decimal) eqn:Edc; [|reflexivity].
+    apply str_eqb_eq in Edc. subst m. destruct (Hdec eq_refl) as [Hp Hs].
+    rewrite fill_present by exact Hp. cbn [c_scale]. rewrite Hs. reflexivity. }
   rewrite S4. cbn [bind]. clear S4.
-  unfold norm_decimal. cbn [c_type]. destruct t as [[]|]; try reflexivity.
-  destruct (str_eqb m ty_decimal) eqn:Edc; [|reflexivity].
-  apply str_eqb_eq in Edc. subst m. destruct (Hdec eq_refl) as [Hp Hs].
-  rewrite fill_present by exact Hp. cbn [c_scale]. rewrite Hs. reflexivity.
+  unfold norm_default, col_params. cbn [c_default c_type c_length c_precision c_scale c_elt].
+  destruct (is_none d) eqn:ET; [reflexivity|].
+  destruct Ht as [[m ->] | ->]; [|reflexivity].
+  destruct (str_eqb m missing_member) eqn:Em; [reflexivity|].
+  rewrite (Hdf eq_refl m eq_refl); [reflexivity|].
+  intros ->. rewrite str_eqb_refl in Em. discriminate.
 Qed.
 
 Definition flattened (c : column) : column :=
@@ -512,9 +525,8 @@ Proof.
     all: first [ rewrite Hn; reflexivity | rewrite D1; reflexivity | rewrite D2; reflexivity
                | rewrite D3; reflexivity | rewrite D4; reflexivity ]. }
   rewrite HC. cbn [bind]. rewrite of_assoc_map. rewrite build_get.
-  apply chain_normalised; [|reflexivity].
-  destruct Hnorm as [Ht [He [Hdec Hdf]]]. unfold normalised, flattened.
-  cbn [c_type c_elt c_precision c_scale c_default]. exact (conj Ht (conj He (conj Hdec Hdf))).
+  destruct Hnorm as [Ht [He [Hdec Hdf]]].
+  apply chain_normalised; try assumption; reflexivity.
 Qed.
 
 Lemma flattened_keeps : forall c f, In f flat_kept -> get f (flattened c) = get f c.
@@ -526,7 +538,7 @@ End Json.
 
 (* ==================== the statements used by Props/C16.v ==================== *)
 Section Statements.
-Variable parse : str -> pv -> result pv.
+Variable parse : str -> params -> pv -> result pv.
 
 (* a column the dictionary form can carry: member type (possibly the placeholder), member element type and
    disposition, DECIMAL with its parameters, no enum member / Expectation object hidden in the other attributes,
